@@ -166,6 +166,10 @@ class Model:
         if ref is not None and os.environ.get("FRAMELINT_NO_HELPER_INLINING") != "1":
             from .inline import inline_new_helpers
             self.inlining = inline_new_helpers(self, ref)
+        # a local re-used for unrelated values is one local per value (see framelint.inline.split_webs)
+        if os.environ.get("FRAMELINT_NO_WEB_SPLIT") != "1":
+            from .inline import split_webs
+            self.webs_split = sum(split_webs(f.node) for f in self.all_functions(include_inlined=True))
 
     # ------------------------------------------------------------------ build
     def _add_module(self, rel: str, src: str) -> None:
